@@ -2107,7 +2107,8 @@ func (c *Ctx) ruleTypeModelKey() {
 			n++
 			d := P.Desc(st.Val)
 			picked := ""
-			for _, l := range P.BlockGuards(b) {
+			// (the conditions of the callers included: the literal may be built in a helper)
+			for _, l := range P.Guards(st) {
 				lk := lookupOK(l)
 				if lk == nil && l.Kind == "cond" && l.Val != nil {
 					lk, _ = l.Val.(*ssa.Lookup) // wanted[name] on a map[string]bool
@@ -2126,4 +2127,38 @@ func (c *Ctx) ruleTypeModelKey() {
 		})
 	}
 	c.floor("TypeModel literals", n, 1)
+	// METHOD-SET/RECV-KIND (twelfth round): within the known approximation (receiver-kind filter), the kind recorded
+	// for a method is the kind of its declared receiver and nothing else - a record overridden for some methods
+	// (promoted ones, say) moves pointer-receiver methods into the value method set: missed IMPL03
+	nk := 0
+	for _, fn := range P.ModFuncs {
+		if funcPkgPath(fn) != modulePath+"/src/implements" {
+			continue
+		}
+		allInstrs(fn, func(b *ssa.BasicBlock, ins ssa.Instruction) {
+			st, ok := ins.(*ssa.Store)
+			if !ok {
+				return
+			}
+			fa, ok := st.Addr.(*ssa.FieldAddr)
+			if !ok || typeStr(deref(fa.X.Type())) != "implements.TypeMethod" || fieldName(deref(fa.X.Type()), fa.Field) != "ReceiverIsPointer" {
+				return
+			}
+			nk++
+			var consts []string
+			fromRecv := true
+			for _, r := range P.Resolve(st.Val) {
+				if cs, isC := r.(*ssa.Const); isC {
+					consts = append(consts, cs.String())
+					continue
+				}
+				if !strings.Contains(P.Desc(r), "call((*go/types.Signature).Recv; ") {
+					fromRecv = false
+				}
+			}
+			c.check(len(consts) == 0 && fromRecv, "METHOD-SET/RECV-KIND", FuncName(fn), P.Pos(st.Pos()), "the receiver kind recorded for a method is computed from Signature.Recv() of that method, on every path",
+				fmt.Sprintf("the receiver kind recorded for a method is not (only) that of its declared receiver [constants: %v, from Recv(): %v]: pointer-receiver methods can be counted into the value method set (missed IMPL03)", consts, fromRecv))
+		})
+	}
+	c.floor("TypeMethod.ReceiverIsPointer records", nk, 1)
 }
